@@ -624,8 +624,9 @@ def h_delta(mod, block, minis, count, longval, widths, vlen=2, dlen=2, cap=None,
 
 
 # ---------------------------------------------------------------- encoders --
-def h_encode_bitpacked(mod, width, n, with_length=None, cap=None, **kw):
-    """encode_bitpacked / encode_rle_bp: header + LSB-first packing of n values < 2^width"""
+def h_encode_bitpacked(mod, width, n, with_length=None, cap=None, start=0, **kw):
+    """encode_bitpacked / encode_rle_bp: header + LSB-first packing of n values < 2^width, appended at the output's
+    cursor (`start` bytes are already in the buffer and must stay as they are)"""
     k = Kit(mod, **kw)
     vals = [z3.BitVec("val%d" % i, 32) for i in range(n)]
     vb = []
@@ -637,19 +638,22 @@ def h_encode_bitpacked(mod, width, n, with_length=None, cap=None, **kw):
     mv = k.memview("values", vbuf, n, 4)
     groups = (n + 7) // 8
     hb = uleb((groups << 1) | 1)
-    need = len(hb) + (n * width + 7) // 8 + (4 if with_length else 0)
+    need = start + len(hb) + (n * width + 7) // 8 + (4 if with_length else 0)
     capb = need + 4 if cap is None else cap
     init = sym_bytes("oinit", capb)
     ob = k.buffer("out", list(init))
-    o = k.numpyio("o", ob, capb)
+    o = k.numpyio("o", ob, capb, loc=start)
     fn = "encode_bitpacked" if with_length is None else "encode_rle_bp"
     shape = dict(kernel=fn, width=width, n=n, with_length=with_length, cap=capb)
-    out = Outcome("%s[w=%d,n=%d%s]" % (fn, width, n, "" if with_length is None else ",len=%d" % with_length),
-                  k, shape, [])
+    if start:
+        shape["start"] = start
+    out = Outcome("%s[w=%d,n=%d%s%s]" % (fn, width, n, "" if with_length is None else ",len=%d" % with_length,
+                                         ",start=%d" % start if start else ""), k, shape, [])
 
     def wit(m):
         return dict(driver="native", call=fn, values=[m.eval(v, model_completion=True).as_long() for v in vals],
-                    out_init=model_bytes(m, init), args=dict(width=width, with_length=with_length), cap_bytes=capb)
+                    out_init=model_bytes(m, init), args=dict(width=width, with_length=with_length, start=start),
+                    cap_bytes=capb)
 
     if with_length is None:
         finals = k.run("encode_bitpacked", [mv, width, o, 0])
@@ -659,13 +663,13 @@ def h_encode_bitpacked(mod, width, n, with_length=None, cap=None, **kw):
     nbody = (n * width + 7) // 8
     for st in _final_returned(out, finals):
         bs = k.out_bytes(st, ob, capb)
-        off = 0
-        obs = []
+        off = start
+        obs = [("out_byte[%d] (before the cursor)" % j, bs[j], init[j]) for j in range(start)]
         if with_length:
             ln = len(hb) + nbody
             for j in range(4):
-                obs.append(("length_prefix[%d]" % j, bs[j], (ln >> (8 * j)) & 0xff))
-            off = 4
+                obs.append(("length_prefix[%d]" % j, bs[start + j], (ln >> (8 * j)) & 0xff))
+            off = start + 4
         for j, b in enumerate(hb):
             obs.append(("header[%d]" % j, bs[off + j], b))
         off += len(hb)
